@@ -485,7 +485,12 @@ func (p *parser) parseConstValue(node *node32) (cv *ConstValue, err error) {
 	// DoubleConstant / IntConstant / Literal / Identifier / ConstList / ConstMap
 	switch node.pegRule {
 	case ruleDoubleConstant:
-		double, _ := strconv.ParseFloat(p.pegText(node), 64)
+		// the text of the whole literal: pegText would return the innermost capture, i.e. the exponent
+		text := p.pegText(node)
+		if n := node.up; n != nil && n.pegRule == rulePegText {
+			text = string(p.buffer[n.begin:n.end])
+		}
+		double, _ := strconv.ParseFloat(text, 64)
 		return &ConstValue{Type: ConstType_ConstDouble, TypedValue: &ConstTypedValue{Double: &double}}, nil
 	case ruleIntConstant:
 		i, err := strconv.ParseInt(p.pegText(node), 0, 64)
